@@ -1623,6 +1623,11 @@ def _put_slice_Tuple_elts(
     else:  # for a delete we use the same rule as for a cut
         par_if_needed = pars is True if self.is_root else pars is not False
 
+    if fst_ and is_slice and not is_delimited and any(e.__class__ is Slice for e in body):  # a slice Tuple containing Slices can not be parenthesized so parenthesize the NamedExprs which would otherwise cause that
+        for e in body:
+            if e.__class__ is NamedExpr and not (f := e.f).pars().n:
+                f._parenthesize_grouping()
+
     is_delimited = self._fix_Tuple(is_delimited, par_if_needed)
 
     if need_par and not is_delimited and par_if_needed:
